@@ -176,3 +176,45 @@ Proof.
     apply Z.eqb_eq in E1, E2. rewrite E1, E2 in Hidx. congruence. }
   rewrite Hn. reflexivity.
 Qed.
+
+(* ---------- redelegation queries ---------- *)
+Lemma kprefix_spec p : forall k, kprefix p k = true <-> exists r, k = p ++ r.
+Proof.
+  induction p as [|x p IH]; intros k; cbn [kprefix app].
+  - split; [intros _; exists k; reflexivity | reflexivity].
+  - destruct k as [|y k]; [split; [discriminate | intros [r E]; discriminate]|].
+    rewrite andb_true_iff, Z.eqb_eq, IH. split.
+    + intros [-> [r ->]]. exists r; reflexivity.
+    + intros [r E]. inversion E; subst. split; [reflexivity | exists r; reflexivity].
+Qed.
+
+(* the query by (delegator, denom) answers exactly the records filed under that delegator and denom:
+   one answer per record, carrying the record's fields and the completion time of its key *)
+Theorem redelegations_query_exact s del dn a :
+  In a (q_redelegations s del dn) <->
+  exists dst ct r, In ([del; dn; dst; ct], r) (redels s) /\
+                   a = (r_del r, r_src r, r_dst r, r_denom r, r_amount r, ct).
+Proof.
+  unfold q_redelegations. rewrite in_flat_map. split.
+  - intros [[k r] [Hin Ha]]. unfold kfilter in Hin. apply filter_In in Hin. destruct Hin as [Hin Hp]. cbn [fst] in Hp.
+    apply kprefix_spec in Hp. destruct Hp as [rest ->]. unfold red_answer in Ha. cbn [fst snd app] in Ha.
+    destruct rest as [|dst [|ct [|? ?]]]; try (destruct Ha; fail). destruct Ha as [<-|[]]. exists dst, ct, r. split; [exact Hin | reflexivity].
+  - intros (dst & ct & r & Hin & ->). exists ([del; dn; dst; ct], r). split.
+    + unfold kfilter. apply filter_In. split; [exact Hin|]. cbn [fst]. apply kprefix_spec. exists [dst; ct]. reflexivity.
+    + unfold red_answer. cbn. left. reflexivity.
+Qed.
+
+(* each record once: in a reachable state the answers are as many as the matching records *)
+Theorem redelegations_query_once h del dn : let s := run init_state h in
+  length (q_redelegations s del dn) = length (filter (fun kr => match fst kr with [d0; n0; _; _] => (d0 =? del) && (n0 =? dn) | _ => false end) (redels s)).
+Proof.
+  intros s. unfold q_redelegations, kfilter. induction (redels s) as [|[k r] m IH]; [reflexivity|]. cbn [filter fst].
+  destruct (kprefix [del; dn] k) eqn:Ep.
+  - apply kprefix_spec in Ep. destruct Ep as [rest ->]. cbn [app flat_map red_answer fst snd].
+    destruct rest as [|dst [|ct [|? ?]]]; cbn [app length]; rewrite ?Z.eqb_refl; cbn [andb length]; rewrite ?IH; try reflexivity.
+  - assert (E : match k with [d0; n0; _; _] => (d0 =? del) && (n0 =? dn) | _ => false end = false).
+    { destruct k as [|d0 [|n0 [|x [|y [|? ?]]]]]; try reflexivity.
+      destruct ((d0 =? del) && (n0 =? dn)) eqn:E; [|reflexivity]. apply andb_prop in E. destruct E as [E1 E2].
+      apply Z.eqb_eq in E1, E2. subst. exfalso. cbn in Ep. rewrite !Z.eqb_refl in Ep. discriminate. }
+    rewrite E. exact IH.
+Qed.
